@@ -104,7 +104,12 @@ def h_abs(name, time_as_period=False):
     return fn
 
 
-def h_fmt(fmt, month=None):
+LEADS = {"%d/%m/%Y": ["%Y", "%m/%Y"], "%m/%Y": ["%Y", "%d/%m/%Y"], "%Y": ["%m/%Y", "%d/%m/%Y"],
+         "%Y %H:%M": ["%Y", "%d/%m/%Y", "%m/%Y"], "%Y-%m": ["%d/%m/%Y", "%Y"]}
+
+
+def h_fmt(fmt, month=None, lead=False):
+    """lead: the matching format comes last in a list whose earlier formats (coarser and finer) do not match"""
     parts, kind = FORMATS[fmt]
     if fmt == "%B %Y":
         parts = [C.EN_MONTHS[month - 1].capitalize()] + parts
@@ -123,7 +128,7 @@ def h_fmt(fmt, month=None):
             if n in w:
                 v[n] = C.field(n, *C._RANGES[n])
         s = tmpl(parts, v)
-        dd = C.api(s, languages=["en"], settings=st, date_formats=[fmt])
+        dd = C.api(s, languages=["en"], settings=st, date_formats=(LEADS[fmt] if lead else []) + [fmt])
         wit.update({k: x for k, x in v.items() if x is not None})
         wit.update(C.base_witness(b))
         do = dd.date_obj
@@ -211,6 +216,8 @@ def tasks(tier, seed):
         add("fmt:" + f, "h_fmt", {"fmt": f})
     for m in sorted(set(list(months) + [2])):
         add("fmt:%%B %%Y:%02d" % m, "h_fmt", {"fmt": "%B %Y", "month": m})
+    for f in LEADS:
+        add("fmtlist:" + f, "h_fmt", {"fmt": f, "lead": True})
     return out
 
 
@@ -234,7 +241,7 @@ def build_spec(task, viol):
         month = a.get("month")
         if a["fmt"] == "%B %Y":
             parts = [C.EN_MONTHS[month - 1].capitalize()] + parts
-        fmtl = [a["fmt"]]
+        fmtl = (LEADS[a["fmt"]] if a.get("lead") else []) + [a["fmt"]]
     vals = dict(w)
     if month is not None:
         vals["m"] = month
